@@ -768,6 +768,16 @@ def stepLine (d : Driver) (toks : List String) : Driver × List String :=
     -- kernel thread asynchronously; the last handle waits for that before it closes the ring
     -- (`Shared::drop`, fix 5ae3e32): the descriptor is closed exactly once and nothing is left queued.
     if !d.live then (d, ["bad-op"]) else (d, ["sqpoll-last-handle closes=1 left=0 open=0"])
+  | ["teardown", "defer-drop", n, b] =>
+    -- A single-issuer ring with deferred completions (IORING_SETUP_DEFER_TASKRUN) of its own: `n`
+    -- reads in flight are abandoned, then the Ring is dropped while the kernel hands over at most
+    -- `b` completions per `io_uring_enter(GETEVENTS)`. `Completions::drop` keeps entering until a
+    -- call brings nothing new (the loop of `rdrop`, fix c86db5e): every buffer is released.
+    if !d.live then (d, ["bad-op"]) else
+    match parseNat n, parseNat b with
+    | some n, some b =>
+      if 1 ≤ n ∧ n ≤ 6 ∧ 1 ≤ b ∧ b ≤ 4 then (d, [s!"defer-drop freed={n}/{n}"]) else (d, ["bad-op"])
+    | _, _ => (d, ["bad-op"])
   | "teardown" :: rest =>
     if !d.live then (d, ["bad-op"]) else
     match parseStep rest with
